@@ -22,6 +22,8 @@ type vpOp struct {
 	K string `json:"k"`           // WB WY WR WS WW FL WA | RB PK DC RY RS RD | RL RU CL | OA OF OX
 	A int    `json:"a,omitempty"` // absolute start index of the written bytes / slot index / tag
 	N int    `json:"n"`           // size
+	D int    `json:"d,omitempty"` // direction: 0 = stream A writes, B reads; 1 = B writes (echo), A reads.
+	// RU = the real Stream.ReleaseReadAndReuse on the stream that READS direction D
 }
 
 type vpObs struct {
@@ -29,8 +31,10 @@ type vpObs struct {
 	N  int   `json:"n"`
 	DL int   `json:"dl"`
 	DH int   `json:"dh"`
-	RL int   `json:"rl"`
-	SL int   `json:"sl"`
+	RL int   `json:"rl"` // Len() of the receive buffer of direction 0 (stream B's recvBuf)
+	SL int   `json:"sl"` // Len() of the send buffer of direction 0 (stream A's sendBuf)
+	R1 int   `json:"rl1"` // ... of direction 1 (stream A's recvBuf)
+	S1 int   `json:"sl1"` // ... of direction 1 (stream B's sendBuf)
 	FR []int `json:"fr"`
 }
 
@@ -88,6 +92,34 @@ type vpipe struct {
 	// Stream.Flush followed by a wait for the arrival at the receiver (see c06_session_test.go)
 	real      bool
 	realFlush func() error
+	// both directions of the stream pair: st[0] = A, st[1] = B.  The fields snd, rcv, pendW, inflight,
+	// avail, wabs, held above are the working set of ONE direction: direction 0 between the ops, the
+	// op's direction while exec runs (enter / leave)
+	st   [2]*Stream
+	dirs [2]vpDir
+	cur  int
+}
+
+type vpDir struct {
+	pendW, inflight, avail []byte
+	wabs                   int
+	held                   []vpHeld
+}
+
+const vpDirBase = 1000000 // absolute byte indices of direction 1 start here (keyed content differs)
+
+func (p *vpipe) save() {
+	p.dirs[p.cur] = vpDir{p.pendW, p.inflight, p.avail, p.wabs, p.held}
+}
+func (p *vpipe) enter(d int) {
+	p.save()
+	p.cur = d
+	x := p.dirs[d]
+	p.pendW, p.inflight, p.avail, p.wabs, p.held = x.pendW, x.inflight, x.avail, x.wabs, x.held
+	p.snd, p.rcv = p.st[d], p.st[1-d]
+}
+func (p *vpipe) lens() (int, int, int, int) {
+	return p.st[1].recvBuf.Len(), p.st[0].sendBuf.Len(), p.st[0].recvBuf.Len(), p.st[1].sendBuf.Len()
 }
 
 func vpNew(caps, counts []int, c *vpCase) (*vpipe, error) {
@@ -127,7 +159,9 @@ func vpNew(caps, counts []int, c *vpCase) (*vpipe, error) {
 		s.pendingData.stream = s
 		return s
 	}
-	p.snd, p.rcv = mk(), mk()
+	p.st[0], p.st[1] = mk(), mk()
+	p.snd, p.rcv = p.st[0], p.st[1]
+	p.dirs[1].wabs = vpDirBase
 	return p, nil
 }
 
@@ -217,6 +251,12 @@ func (p *vpipe) frontSize() int {
 
 // exec runs one op on the real code; returns false when the case must stop (panic / error)
 func (p *vpipe) exec(idx int, op vpOp) bool {
+	p.enter(op.D)
+	defer p.enter(0)
+	return p.exec1(idx, op)
+}
+
+func (p *vpipe) exec1(idx int, op vpOp) bool {
 	ob := vpObs{N: -1, DL: -1}
 	var data []byte
 	hasData := false
@@ -247,7 +287,8 @@ func (p *vpipe) exec(idx int, op vpOp) bool {
 	}
 	if ob.C == 3 {
 		p.feat["blocked"] = true
-		ob.RL, ob.SL, ob.FR = r.Len(), w.Len(), p.free()
+		ob.RL, ob.SL, ob.R1, ob.S1 = p.lens()
+		ob.FR = p.free()
 		p.c.Obs = append(p.c.Obs, ob)
 		return true
 	}
@@ -323,7 +364,13 @@ func (p *vpipe) exec(idx int, op vpOp) bool {
 		case "RL":
 			r.ReleasePreviousRead()
 		case "RU":
-			r.releasePreviousReadAndReserve()
+			// the REAL Stream.ReleaseReadAndReuse (stream.go): releasePreviousReadAndReserve + the swap decision
+			if one := r.sliceList.size() == 1; one && r.Len() > 0 {
+				p.feat["reuse-with-unread-bytes-in-one-slice"] = true
+			} else if one {
+				p.feat["reuse-swap"] = true
+			}
+			p.rcv.ReleaseReadAndReuse()
 		case "CL":
 			r.recycle()
 		case "OA":
@@ -434,12 +481,20 @@ func (p *vpipe) exec(idx int, op vpOp) bool {
 		p.held = nil
 		p.avail = nil
 	}
-	ob.RL, ob.SL, ob.FR = r.Len(), w.Len(), p.free()
-	if ob.RL != len(p.avail) {
-		p.fail("C06:Len-of-reader-differs-from-bytes-moved-minus-consumed", fmt.Sprintf("op %d %s(%d): Len()=%d, byte queue says %d", idx, op.K, op.N, ob.RL, len(p.avail)))
+	w, r = p.snd.sendBuf, p.rcv.recvBuf // ReleaseReadAndReuse may have swapped the buffers of the reading stream
+	ob.RL, ob.SL, ob.R1, ob.S1 = p.lens()
+	ob.FR = p.free()
+	if op.K == "RU" {
+		// the stream that released also owns the send buffer of the other direction: nothing written there may move
+		if got, want := p.rcv.sendBuf.Len(), len(p.dirs[1-p.cur].pendW); got != want {
+			p.fail("C06:ReleaseReadAndReuse-changed-the-unflushed-bytes-of-the-stream", fmt.Sprintf("op %d: Len() of its send buffer is %d, byte queue says %d", idx, got, want))
+		}
 	}
-	if ob.SL != len(p.pendW) {
-		p.fail("C06:Len-of-writer-differs-from-bytes-written", fmt.Sprintf("op %d %s(%d): Len()=%d, byte queue says %d", idx, op.K, op.N, ob.SL, len(p.pendW)))
+	if r.Len() != len(p.avail) {
+		p.fail("C06:Len-of-reader-differs-from-bytes-moved-minus-consumed", fmt.Sprintf("op %d %s(%d) dir %d: Len()=%d, byte queue says %d", idx, op.K, op.N, op.D, r.Len(), len(p.avail)))
+	}
+	if w.Len() != len(p.pendW) {
+		p.fail("C06:Len-of-writer-differs-from-bytes-written", fmt.Sprintf("op %d %s(%d) dir %d: Len()=%d, byte queue says %d", idx, op.K, op.N, op.D, w.Len(), len(p.pendW)))
 	}
 	// C08: every zero-copy result handed out and not yet released still has its bytes
 	for _, h := range p.held {
@@ -447,6 +502,9 @@ func (p *vpipe) exec(idx int, op vpOp) bool {
 			sig := "C08:zero-copy-result-changed-before-release"
 			if p.real {
 				sig = "C06:zero-copy-result-of-a-fallback-delivery-changed-before-release"
+				if p.c.Mode == "c08s" {
+					sig = "C08:zero-copy-result-of-a-fallback-delivery-changed-before-release"
+				}
 			}
 			p.fail(sig, fmt.Sprintf("result of op %d (%d bytes) changed after op %d %s(%d)", h.op, len(h.want), idx, op.K, op.N))
 			break
@@ -485,16 +543,22 @@ func (p *vpipe) accounting(idx int, op vpOp) {
 			n++
 		}
 	}
-	add(p.snd.sendBuf.sliceList)
-	add(p.rcv.recvBuf.sliceList)
-	add(p.rcv.recvBuf.pinnedList)
+	for _, st := range p.st {
+		add(st.sendBuf.sliceList)
+		add(st.sendBuf.pinnedList)
+		add(st.recvBuf.sliceList)
+		add(st.recvBuf.pinnedList)
+	}
 	for _, b := range p.others {
 		if k := p.classOf(b.cap); k >= 0 {
 			owned[k]++
 		}
 	}
 	// chains in flight: walk the headers in shared memory
-	for _, u := range p.rcv.pendingData.unread {
+	var unread []bufferSliceWrapper
+	unread = append(unread, p.st[0].pendingData.unread...)
+	unread = append(unread, p.st[1].pendingData.unread...)
+	for _, u := range unread {
 		if u.fallbackSlice != nil {
 			continue
 		}
@@ -635,6 +699,48 @@ func vpGenCase(rng *vrand, id int, mode string) *vpCase {
 			return 1 + rng.intn(2*cc)
 		}
 	}
+	echoOn := rng.chance(25)
+	genEcho := func() vpOp {
+		d1 := &p.dirs[1]
+		availAll := len(d1.avail) + len(d1.inflight)
+		rd := func(k string) vpOp {
+			if availAll == 0 {
+				return vpOp{K: "FL", D: 1}
+			}
+			n := 1 + rng.intn(availAll)
+			if rng.chance(15) {
+				n = relSize()
+			}
+			return vpOp{K: k, N: n, D: 1}
+		}
+		switch rng.intn(12) {
+		case 0, 1, 2:
+			n := relSize()
+			op := vpOp{K: "WB", A: d1.wabs, N: n, D: 1}
+			d1.wabs += n
+			return op
+		case 3:
+			n := relSize()
+			op := vpOp{K: "WR", A: d1.wabs, N: n, D: 1}
+			d1.wabs += n
+			return op
+		case 4, 5:
+			return vpOp{K: "FL", D: 1}
+		case 6, 7:
+			return rd("RB")
+		case 8:
+			return rd("PK")
+		case 9:
+			return rd("DC")
+		case 10:
+			return vpOp{K: "RL", D: 1}
+		default:
+			if len(p.pendW) > 0 {
+				return vpOp{K: "RL", D: 1}
+			}
+			return vpOp{K: "RU", D: 1} // stream A releases and possibly adopts its last read slice
+		}
+	}
 	nops := 12 + rng.intn(29)
 	for len(c.Ops) < nops {
 		var op vpOp
@@ -642,6 +748,64 @@ func vpGenCase(rng *vrand, id int, mode string) *vpCase {
 		wth, oth := 38, 8
 		if mode == "c08" {
 			wth, oth = 25, 30
+		}
+		// the other direction: stream B writes (echo), stream A reads
+		if x >= 94 && echoOn {
+			if !run(genEcho()) {
+				return c
+			}
+			continue
+		}
+		// Stream.ReleaseReadAndReuse: (1) while ONE slice is left with unread bytes in it (nothing may happen to
+		// them), (2) when that slice is exhausted (the stream adopts it as its next write buffer: swap), then the
+		// reading stream writes back through the adopted slice and the first stream reads the echo
+		if x >= 88 && x < 94 && !p.snd.inFallbackState && p.snd.sendBuf.sliceList.writeSlice == nil && len(p.pendW) == 0 && len(p.dirs[1].pendW) == 0 {
+			cls := -1
+			for i, l := range p.bm.lists {
+				if l.remain() >= 2 {
+					cls = i
+					break
+				}
+			}
+			if cls >= 0 {
+				ok := true
+				for ok && len(p.avail)+len(p.inflight) > 0 {
+					ok = run(vpOp{K: "RB", N: len(p.avail) + len(p.inflight)})
+				}
+				ok = ok && run(vpOp{K: "RL"})
+				n := 2 + rng.intn(caps[cls])
+				if n > caps[cls] {
+					n = caps[cls]
+				}
+				if n < 2 {
+					n = 2
+				}
+				ok = ok && run(vpOp{K: "WB", A: p.wabs, N: n})
+				p.wabs += n
+				ok = ok && run(vpOp{K: "FL"})
+				k := 1 + rng.intn(n-1)
+				rk := "RB"
+				if rng.chance(30) {
+					rk = "DC"
+				}
+				ok = ok && run(vpOp{K: rk, N: k})
+				ok = ok && run(vpOp{K: "RU"}) // one slice, n-k unread bytes in it
+				if ok && rng.chance(50) {
+					ok = run(vpOp{K: "PK", N: 1 + rng.intn(n-k)})
+				}
+				ok = ok && run(vpOp{K: "RB", N: n - k})
+				ok = ok && run(vpOp{K: "RU"}) // one exhausted slice: adopted
+				if !ok {
+					return c
+				}
+				echoOn = true
+				for j := 0; j < 2+rng.intn(4); j++ {
+					if !run(genEcho()) {
+						return c
+					}
+				}
+				continue
+			}
 		}
 		// a zero-copy Peek of a not yet consumed slice, kept; a Discard crossing that slice's end; then other
 		// owners cycle the FIFO free list of that class (allocate, scribble, free) before the release: a
@@ -805,6 +969,11 @@ func vpGenCase(rng *vrand, id int, mode string) *vpCase {
 				op = vpOp{K: "RL"}
 			case y < rb+pk+52:
 				op = vpOp{K: "RU"}
+				if len(p.dirs[1].pendW) > 0 {
+					// ReleaseReadAndReuse with written, unflushed bytes in the same stream's send buffer would swap
+					// them into its read buffer (documented misuse, see reset() in stream.go): not generated
+					op = vpOp{K: "RL"}
+				}
 			default:
 				if availAll == 0 {
 					op = vpOp{K: "FL"}
@@ -817,22 +986,30 @@ func vpGenCase(rng *vrand, id int, mode string) *vpCase {
 			return c
 		}
 	}
-	// drain: flush, read everything, release, give back what the others hold: all slots free again
-	if !run(vpOp{K: "FL"}) {
-		return c
-	}
-	for len(p.avail)+len(p.inflight) > 0 {
-		n := 1 + rng.intn(len(p.avail)+len(p.inflight))
-		k := "RB"
-		if rng.chance(30) {
-			k = "DC"
-		}
-		if !run(vpOp{K: k, N: n}) {
+	// drain both directions: flush, read everything, release, give back what the others hold: all slots free again
+	for d := 0; d < 2; d++ {
+		if !run(vpOp{K: "FL", D: d}) {
 			return c
 		}
-	}
-	if !run(vpOp{K: "RL"}) {
-		return c
+		left := func() int {
+			if d == 0 {
+				return len(p.avail) + len(p.inflight)
+			}
+			return len(p.dirs[1].avail) + len(p.dirs[1].inflight)
+		}
+		for left() > 0 {
+			n := 1 + rng.intn(left())
+			k := "RB"
+			if rng.chance(30) {
+				k = "DC"
+			}
+			if !run(vpOp{K: k, N: n, D: d}) {
+				return c
+			}
+		}
+		if !run(vpOp{K: "RL", D: d}) {
+			return c
+		}
 	}
 	for len(p.others) > 0 {
 		if !run(vpOp{K: "OX", A: 0}) {
@@ -840,13 +1017,14 @@ func vpGenCase(rng *vrand, id int, mode string) *vpCase {
 		}
 	}
 	// a released receive buffer may still own its exhausted front slice; Close gives it back
-	if !run(vpOp{K: "CL"}) {
+	if !run(vpOp{K: "CL"}) || !run(vpOp{K: "CL", D: 1}) {
 		return c
 	}
-	// the sender may still own a slot it never flushed (e.g. after Reserve(0)): Stream.Close recycles it
+	// a send buffer may still own a slot it never flushed (the adopted slice): Stream.Close recycles it
 	func() {
 		defer func() { recover() }()
-		p.snd.sendBuf.recycle()
+		p.st[0].sendBuf.recycle()
+		p.st[1].sendBuf.recycle()
 	}()
 	fr := p.free()
 	for i := range fr {
